@@ -112,6 +112,42 @@ def make_case(rng: random.Random, *, funcs=None, chunked=None, dtypes=None, stre
     raise RuntimeError("generator could not produce a legal case")
 
 
+def make_refusal_case(rng: random.Random, chunked: bool):
+    """a call just outside the documented contract in ONE way flox documents a refusal for; the implementation may refuse
+    (ValueError / NotImplementedError) or - if it accepts - must return the right answer.  -> (case, kind)"""
+    import copy
+
+    for _ in range(400):
+        kind = rng.choice(["arg-flox", "arg-flox", "arg-numbagg-chunked", "firstlast-chunked-mapreduce", "cohorts-dask-labels",
+                           "arg-reindex-true"] if chunked else ["arg-flox"])
+        funcs = sorted(ARG) if kind.startswith("arg") else (["first", "last"] if kind.startswith("firstlast") else None)
+        try:
+            c = make_case(rng, funcs=funcs, chunked=chunked, engines=["numpy"], mcs=(None,),
+                          methods=(("blockwise",) if kind.startswith("firstlast") else ("cohorts",) if kind.startswith("cohorts")
+                                   else (None, "map-reduce", "cohorts")),
+                          dask_labels_p=0.0, expected_modes=(["exact", "superset"] if kind.startswith("cohorts") else None))
+        except RuntimeError:
+            continue
+        c = copy.copy(c)
+        if kind == "arg-flox":
+            c.engine = "flox"
+        elif kind == "arg-numbagg-chunked":
+            c.engine = "numbagg"
+        elif kind == "firstlast-chunked-mapreduce":
+            c.method = rng.choice(["map-reduce", "cohorts", None])
+        elif kind == "cohorts-dask-labels":
+            if c.expected is None:
+                continue
+            c.dask_labels = True
+        else:
+            c.reindex = True
+            c.method = rng.choice([None, "map-reduce"])
+        c.stream = "refusal:" + kind
+        if not legal(c):
+            return c, kind
+    raise RuntimeError("generator could not produce a refusal case")
+
+
 def nontrivial(c: Case) -> bool:
     """at least two elements share a group, or there are >= 2 groups / a missing label / a NaN"""
     labs = [l for l in c.labels if l is not None]
@@ -141,9 +177,28 @@ class ReduceProp(Prop):
     def extra_checks(self, c: Case, impl: dict, rep: Report) -> str | None:
         return None
 
+    refusal_chunked = None        # None: no refusal stream; False: eager calls; True: chunked calls
+
     def run(self, rng, tier, rep: Report, search=False):
         cases = list(self.corpus()) + [self.gen(rng, tier, i) for i in range(self.n_cases(tier, search))]
         self.run_cases(cases, rep)
+        if self.refusal_chunked is not None:
+            self.run_refusals(rng, max(60, self.n_cases(tier, search) // 10), rep)
+
+    def run_refusals(self, rng, n, rep: Report):
+        """calls flox documents a refusal for: refused (counted) or answered correctly - never answered wrongly"""
+        for _ in range(n):
+            c, kind = make_refusal_case(rng, self.refusal_chunked)
+            im = run_impl(c)
+            rep.evaluations += 1
+            if im["kind"] == "err" and im["err"] in ("ValueError", "NotImplementedError"):
+                rep.dist[f"refusal:{kind}:refused"] += 1
+                continue
+            d = cmp_impl_oracle(c, im, run_oracle(c), self.in_domain)
+            if d:
+                rep.direct.append((asdict(c), f"accepted a call outside the contract ({kind}) and answered wrongly: {d}"))
+            else:
+                rep.dist[f"refusal:{kind}:accepted-and-right"] += 1
 
     def run_cases(self, cases, rep: Report):
         impls = [run_impl(c) for c in cases]
@@ -253,6 +308,7 @@ def _unjson(x):
 class C01(ReduceProp):
     id = "C01"
     lean_module = "FloxProps.C01"
+    refusal_chunked = False
     rule = ("seeded generator: 1-D values from {-3..3,5,NaN,+-inf} (float/int/bool dtypes), labels with 1-4 groups "
             "(random/sorted/periodic/runs, optional missing), eager call on every engine setting; non-trivial = at least "
             "two elements and (>=2 groups or a repeated/missing label); distinct = hash of the full case; plus a kernel-level "
@@ -332,6 +388,7 @@ class C01(ReduceProp):
 class C02(ReduceProp):
     id = "C02"
     lean_module = "FloxProps.C02"
+    refusal_chunked = True
     rule = ("seeded generator as C01 but on dask input: method in {None, map-reduce, cohorts, blockwise (sorted labels)}, "
             "reindex in {None, True, False}, numpy or dask labels, chunkings incl. all-ones / single / uneven, split_every 2-4; "
             "the oracle is NumPy per group (hence also the eager result via C01); non-trivial/distinct as C01")
@@ -447,6 +504,12 @@ class C06(ReduceProp):
                     # one strict extreme late in the array, near-equal values before it
                     j = rng.randrange(len(c.vals) // 2, len(c.vals))
                     c.vals[j] = base + (5 if "max" in c.func else -5)
+            if c.dtype.startswith("float") and c.func in FIRSTLAST and rng.random() < 0.2:
+                # datetime64 / timedelta64 data: NaT is their missing value and must be skipped / kept like NaN
+                c.dtype = rng.choice(["datetime64[ns]", "timedelta64[ns]", "datetime64[s]"])
+                c.vals = [v if (isinstance(v, float) and v != v) else float(rng.choice([10, 20, 20, 30])) for v in c.vals]
+                c.fill, c.min_count, c.expected = None, None, (c.expected if c.expected is None else sorted({l for l in c.labels if l is not None}) or None)
+                c.expected_kind = "array"
             if c.chunks is not None:
                 c.chunks = gen_chunks(rng, len(c.vals), rng.choice(["ones", "single", "random", "random"]))
             if legal(c):
